@@ -78,7 +78,33 @@ def gen_cases(rng, n, tier):
         if rng.random() < 0.08:
             a = Fraction(0)
         k = rng.random()
-        if a is None or k < 0.3:
+        hard = None
+        if rng.random() < 0.25:
+            # the HARDEST pairs for any approximate comparison: neighbouring convergents of one continued fraction
+            # (p_k q_{k+1} - p_{k+1} q_k = +-1: unequal values that agree to all but the last digit of the cross products),
+            # a value and the same value plus an extremely small fraction, mediants
+            r = rng.random()
+            terms = [rng.choice([1, 1, 2, 3, 7, 40, rng.randint(1, 10 ** 6)]) for _ in range(rng.randint(4, 60))]
+            p0, q0, p1, q1 = 1, 0, terms[0], 1
+            conv = [(p1, q1)]
+            for t in terms[1:]:
+                p0, q0, p1, q1 = p1, q1, t * p1 + p0, t * q1 + q0
+                conv.append((p1, q1))
+            j = rng.randint(max(1, len(conv) - 12), len(conv) - 1)
+            if r < 0.6:
+                hard = (Fraction(*conv[j]), Fraction(*conv[j - 1]))
+            elif r < 0.75 and j >= 2:
+                hard = (Fraction(*conv[j]), Fraction(*conv[j - 2]))
+            elif r < 0.9:
+                x = Fraction(*conv[min(j, 6)])
+                hard = (x, x + Fraction(rng.choice([1, -1]), rng.choice([10, 2, 7]) ** rng.randint(15, 120)))
+            else:
+                hard = (Fraction(*conv[j]), Fraction(conv[j][0] + conv[j - 1][0], conv[j][1] + conv[j - 1][1]))
+            if rng.random() < 0.3:
+                hard = (-hard[0], -hard[1])
+        if hard is not None:
+            a, b = hard
+        elif a is None or k < 0.3:
             b = _rand_frac(rng, maxl)
         elif k < 0.4:
             b = a
@@ -109,7 +135,7 @@ def gen_cases(rng, n, tier):
             script += ' %s %s neq out' % (_num_tok(a), _num_tok(b))
             expect.append('b|%d' % e)
         cls = lambda v: 'nan' if v is None else (('neg' if v < 0 else ('zero' if v == 0 else 'pos')) + ('_frac' if v.denominator != 1 else '_int'))
-        out.append({'script': script, 'expect': expect, 'tag': 'pair', 'tags': ['cmp:' + o, 'lhs:' + cls(a), 'rhs:' + cls(b)],
+        out.append({'script': script, 'expect': expect, 'tag': 'pair', 'tags': ['cmp:' + o, 'lhs:' + cls(a), 'rhs:' + cls(b)] + (['nearly_equal_pair'] if hard is not None else []),
                     'desc': 'partial_cmp / == on a pair', 'trivial': False})
     return out
 
@@ -133,6 +159,13 @@ def gen_compare_prog(rng, nan_bias=False):
                 prog += push_value(rng.choice([0, 1, 2, c, max(0, c - 1)])) + [(1, 2, 3, None)]
             if rng.random() < 0.3:
                 prog += push_value(1) + push_value(2) + [(4, 1, 5, None), (2, 2, 3, None), (1, 2, 3, None)]
+        elif k < 0.12:
+            # the count plus or minus an extremely small fraction: c +- 1/b^e
+            b_, e_ = rng.choice([(10, rng.randint(16, 50)), (2, rng.randint(50, 64)), (7, rng.randint(20, 40))])
+            prog += [(0, 1, b_, None)] * e_ + [(2, e_, 3, None), (4, 1, 5, None)]          # 1/b^e stays on stack 3
+            if rng.random() < 0.5:
+                prog += [(3, 1, 5, None)]                                                   # negated
+            prog += push_value(c) + [(1, 2, 3, None)]
         elif k < 0.35:
             v = max(0, c + rng.choice([-1, 0, 0, 1, -c, c]))
             prog += push_value(v)
@@ -341,7 +374,7 @@ def main(tier, seed):
     }
     assumptions = ['Fraction order is the oracle; NaN compares unordered and takes the right branch',
                    'program-level attribution: only divergences at a step whose command is a plain push with an area are judged here; others are left to C01/C06']
-    minimum = {'pairs': (n, 5000), 'object histories': (hist.get('object_history', 0), 300), 'cmp:N': (hist.get('cmp:N', 0), 100), 'cmp:L': (hist.get('cmp:L', 0), 500),
+    minimum = {'pairs': (n, 5000), 'nearly equal pairs': (hist.get('nearly_equal_pair', 0), 2000), 'object histories': (hist.get('object_history', 0), 300), 'cmp:N': (hist.get('cmp:N', 0), 100), 'cmp:L': (hist.get('cmp:L', 0), 500),
                'program comparisons': (ncmp, 1000), 'comparisons in compiled programs': (chist.get('compiled_comparisons', 0), 150),
                'fraction operands at ?': (phist.get('branch:?:frac:left', 0) + phist.get('branch:?:frac:right', 0), 100),
                'negative fractions within 1 of the count': (phist.get('negative_fraction_within_1_of_count', 0), 10)}
